@@ -40,7 +40,7 @@ def build(d):
         flags, date = projgen.gen_bump(d, nodes, state)
     # stretch the files: gaps (several hunks) and lines that look like diff syntax
     for f in spec["files"]:
-        f["bom"] = False
+        f["bom"] = bool(f.get("bom")) or (uni and d.chance(1, 6))  # a UTF-8 byte order mark in front of the first line
         new_lines, new_seps = [], []
         sep = {"lf": "\n", "crlf": "\r\n", "cr": "\r"}[f["regime"]]
         for segs, s in zip(f["lines"], f["seps"]):
